@@ -199,9 +199,13 @@ def build_vh(ctx, features, extra_flags=(), name="vh", san_flags=None, cc="clang
     os.makedirs(bdir, exist_ok=True)
     hfiles = ["vh.c", "ops_crc.c"] + ["ops_%s.c" % f for f in features]
     included = set()
+    wrap = False
     for hf in hfiles:
         src = open(os.path.join(HARNESS, hf)).read()
         included.update(re.findall(r'#include\s+"lib/([\w]+\.c)"', src))
+        included.update(re.findall(r'VH-REPLACES:\s*lib/([\w]+\.c)', src))
+        if "__wrap_malloc" in src:
+            wrap = True
     defs = ["-DVH_WITH_%s" % f.upper() for f in features]
     inc = ["-I", REPO, "-I", os.path.join(REPO, "lib"), "-I", os.path.join(REPO, "lib", "public"),
            "-I", HARNESS, "-DHAVE_CONFIG_H", "-w"]
@@ -223,7 +227,8 @@ def build_vh(ctx, features, extra_flags=(), name="vh", san_flags=None, cc="clang
     if errs:
         return None, "\n".join(errs)[-4000:]
     exe = os.path.join(bdir, name)
-    rc, err = _cc([cc] + san + objs + ["-o", exe])
+    wl = ["-Wl,--wrap=malloc,--wrap=calloc,--wrap=realloc,--wrap=free,--wrap=strdup"] if wrap else []
+    rc, err = _cc([cc] + san + wl + objs + ["-o", exe])
     if rc != 0:
         return None, err[-4000:]
     return exe, ""
